@@ -32,7 +32,7 @@ REACH = [
 PLAN = {
     "quick": {"shards": 8, "cases": 1500, "timeout_s": 600, "min_evaluations": 6000,
               "min_counters": {"process_events": 18000, "attempt_events": 18000, "suite_run_components_calls": 5000}},
-    "thorough": {"shards": 16, "cases": 4000, "timeout_s": 3000, "min_evaluations": 30000,
+    "thorough": {"shards": 16, "cases": 16000, "timeout_s": 3000, "min_evaluations": 30000,
                  "min_counters": {"process_events": 100000, "suite_run_components_calls": 7000}},
 }
 
